@@ -340,7 +340,11 @@ func (s *Solver) CheckFeasible(t *Term, syms []*Term) (Result, map[string]uint64
 		s.Unknowns--
 		// stand-alone retry (different strategy: full preprocessing + bit-blasting)
 		s.Stage2++
-		r2, m2 := s.oneShotWith(t, syms, []string{s.FallbackKinds[0]}, s.FeasMs/1000+1)
+		fk := s.Kind
+		if len(s.FallbackKinds) > 0 {
+			fk = s.FallbackKinds[0]
+		}
+		r2, m2 := s.oneShotWith(t, syms, []string{fk}, s.FeasMs/1000+1)
 		if r2 == Unsat {
 			return Unsat, nil
 		}
